@@ -98,6 +98,8 @@ def corruption_class(spec):
                                      (not spec[1] and x[0] in ("set",) + DICT_TAGS) for x in spec[2]):
             return "objarray-of-sequences"
         return "objarray-other"
+    if tag == "masked" and len(spec) > 3:
+        return "masked-fill-value"
     if tag in ("myint", "mystr"):
         return "scalar-subclass"
     if tag == "mytuple":
@@ -132,6 +134,8 @@ OBJARR_FIXED = [
 
 # fixed witnesses of the open findings, replayed on every run
 WITNESSES = OBJARR_FIXED + [
+    ["masked", ["ndarray", "<f8", [4], "C", 1, False], 2, {"fill": -1.0, "hard": False}],                 # C04-F6: fill_value lost
+    ["masked", ["ndarray", "<i8", [3], "C", 2, False], 1, {"fill": 7, "hard": True}],                     # C04-F6: fill_value and hard mask lost
     ["dict", [[["bool", False], ["str", "x"]], [["bool", True], ["str", "y"]]]],                         # D07
     ["dict", [[["int", 1], ["str", "a"]], [["str", "1"], ["str", "b"]]]],                                # D08 (repaired: dumps raises ValueError)
     ["frozenset", [["int", 1]]],                                                                         # D09
@@ -199,7 +203,10 @@ def run(R, only=None):
             nok += 1
             if not mf_flags.get(i):
                 R.obligation_broken("C04 guard vs model", f"c04_ok holds of {json.dumps(specs[i])[:300]} but the model's loads(dumps(v)) is a different value")
-            if differs(recs[i]):
+            # attributes the pval abstraction does not carry (fill_value / hard mask of a masked array: open finding C04-F6) are
+            # outside what c04_ok speaks about: such a difference is reported by the property oracle below, not as a broken guard
+            only_extras = bool(recs[i].get("extras_only"))
+            if differs(recs[i]) and not only_extras:
                 R.obligation_broken("C04 guard vs implementation", f"c04_ok holds of {json.dumps(specs[i])[:300]} but the implementation returns a different value")
     R.notes["guard"] = (f"c04_ok (coq/io/CodecGuards.v) holds of {nok}/{len(idx)} modelled generated values; for each of them the model and the implementation "
                         "are faithful or refuse")
